@@ -395,6 +395,50 @@ def r5_cached_defaults_come_from_the_template(ctx, rid):
     r9_explicit_value_wins_over_cached_default(ctx, rid)
 
 
+def r7_update_reaches_the_variation(ctx, rid):
+    """After `template.update_var(op, var, val)` the template's effective value of `var` is `val`: every normal path of
+    OperatorGraphTemplate.update_var either stores `val` under `var` in the operator's variation table or removes the entry (so that
+    the operator default applies - legitimate only when that default IS the value, which is the caller's branch condition).  A path
+    that returns without touching the entry keeps whatever an earlier override put there."""
+    from engine.inline import inlined
+    f0 = ctx.repo.get_func(FG, "OperatorGraphTemplate.update_var")
+    f = inlined(ctx, f0)
+    cfg = ctx.cfg(f)
+    params = [p for p in f0.params if p != f0.self_name]
+    if len(params) < 3:
+        raise AnalysisError(f"{rid}: OperatorGraphTemplate.update_var lost its (op, var, val) parameters")
+    var_p = params[1]
+
+    def keyed_by_var(e):
+        return isinstance(e, ast.Name) and e.id == var_p
+
+    def touches(st):
+        if not isinstance(st, ast.stmt) or isinstance(st, (ast.If, ast.For, ast.While, ast.Try, ast.With)):
+            return False
+        if isinstance(st, ast.Assign) and any(isinstance(t, ast.Subscript) and keyed_by_var(t.slice) for t in st.targets):
+            return True
+        if isinstance(st, ast.Delete) and any(isinstance(t, ast.Subscript) and keyed_by_var(t.slice) for t in st.targets):
+            return True
+        for c in ast.walk(st):
+            if isinstance(c, ast.Call) and isinstance(c.func, ast.Attribute) and c.func.attr in ("pop", "__setitem__", "__delitem__", "setdefault") \
+                    and c.args and keyed_by_var(c.args[0]):
+                return True
+            if isinstance(c, ast.Call) and isinstance(c.func, ast.Attribute) and c.func.attr == "update" and c.args \
+                    and isinstance(c.args[0], ast.Dict) and any(keyed_by_var(k) for k in c.args[0].keys):
+                return True
+        return False
+    if not any(touches(st) for st in cfg.stmts()):
+        raise AnalysisError(f"{rid}: no store into / removal from a table keyed by `{var_p}` found in OperatorGraphTemplate.update_var")
+    witness = cfg.must_pass(cfg.ENTRY, touches)
+    if witness is None:
+        ctx.ok(rid, f0, f0.node, f"every normal path of update_var stores or removes the variation of `{var_p}`", label="the override reaches the variation table")
+    else:
+        ret = next((x for x in reversed(witness) if isinstance(x, ast.Return)), None)
+        ctx.violation(rid, f0, ret or f0.node, f"a normal path of update_var returns without storing or removing the variation of `{var_p}`: an override "
+                                               f"given earlier (by a previous call or by the template's definition) stays in force and the value just "
+                                               f"passed never arrives", {"witness": cfg.path_str(witness)}, label="the override reaches the variation table")
+
+
 def r6_edge_records_carry_their_index(ctx, rid):
     """An edge override addressed by (source, target, idx) reaches exactly that edge: wherever an edge record handed to update_var was
     resolved with an index that can be non-zero, the record carries that index (adapt_circuit's producer records and the update_var
@@ -410,4 +454,5 @@ RULES = [
     ("C07-R4", r4_edge_update_replaces_exactly_one_edge, 1),
     ("C07-R5", r5_cached_defaults_come_from_the_template, 2),
     ("C07-R6", r6_edge_records_carry_their_index, 1),
+    ("C07-R7", r7_update_reaches_the_variation, 1),
 ]
